@@ -637,6 +637,7 @@ package iscp
 // OpenDownstream: the pre-registered data-id aliases are minted by the very generator the stream
 // keeps using afterwards, so no later alias can collide with a pre-registered one.
 //@ func (*Conn).OpenDownstream
+//@   assert[C03,C04] call registerDownstream: arg1 != nil && arg1.dataIDAliases == aliases && arg1.revDataIDAliases == revAliases && arg1.dataIDAliasGenerator == aliasGenerator && arg1.idAlias == alias && arg1.upstreamInfos != nil && len(arg1.upstreamInfos) == 0 && arg1.upstreamInfoAliasGenerator != nil && arg1.upstreamInfoAliasGenerator.currentValue == 0 && arg1.chunkAckIDSequence != nil && arg1.chunkAckIDSequence.Current == 0   // the stream starts with exactly the tables and the generator the open request was built from
 //@   assert[C03,C04] call Conn).send: aliasGenerator != nil && forall(a, uint32, imp(has(aliases, a), 1 <= a && a <= aliasGenerator.currentValue))
 //@   loop 2 invariant[C03,C04] aliases != nil && aliasGenerator != nil && aliasGenerator.currentValue <= rangeindex + 1 && forall(a, uint32, imp(has(aliases, a), 1 <= a && a <= aliasGenerator.currentValue))
 
@@ -749,7 +750,8 @@ package iscp
 // never be left behind for the next caller (who would then return before its own flush ran), and
 // the write inbox is unbuffered too (a point is accepted only when the flush loop takes it).
 //@ func (*Conn).OpenUpstream
-//@   props C20
+//@   props C20 C01 C02
+//@   assert[C01,C02] call registerUpstream: arg1 != nil && arg1.ID == resp.AssignedStreamID && arg1.idAlias == resp.AssignedStreamIDAlias && arg1.sequence != nil && arg1.sequence.Current == 0 && arg1.sendBuffer != nil && len(arg1.sendBuffer) == 0 && arg1.sent == c.sentStorage && arg1.upstreamChunkResultChs != nil && len(arg1.upstreamChunkResultChs) == 0 && arg1.dataIDAliases == resp.DataIDAliases   // a new stream starts numbering at 1 with an empty buffer, on the connection's sent storage
 //@   assert call registerUpstream: arg1 != nil && cap(arg1.explicitlyFlushCh) == 0 && cap(arg1.explicitlyFlushResultCh) == 0 && cap(arg1.dpgCh) == 0
 
 //@ guarded[C09] Conn.upstreamMu: upstreams
@@ -763,3 +765,9 @@ package iscp
 //@   inline
 //@ func (*streamState).SwapWithoutLock
 //@   inline
+
+//@ func newSequenceNumberGenerator
+//@   props C04 C01
+//@   nopanic
+//@   modifies nothing
+//@   ensures result != nil && fresh(result) && result.Current == currentValue
